@@ -206,11 +206,36 @@ func (h *hist) load() bool {
 			return false
 		}
 		h.root = root
-		// the unmodified tree must serialise to an equivalent configuration (C10 / C09 territory otherwise)
+		// nothing has been touched yet: the tree holds exactly the source's tokens (everything else here
+		// reasons from the tree's own token list, so this is also what keeps the attribution of later
+		// failures honest)
+		{
+			have := tbs(h.f.BuildTokens(nil))
+			want := lib.LexSeq(src)
+			if n := len(want); n > 0 && want[n-1].T == hclsyntax.TokenEOF {
+				want = want[:n-1]
+			}
+			if n := len(have); n > 0 && have[n-1].T == hclsyntax.TokenEOF {
+				have = have[:n-1]
+			}
+			if k, differ := lib.DiffKey(want, have); differ {
+				h.cx.Res.Fail(lib.Failure{Kind: "oracle", Key: "initial:tokens-differ-from-source:" + k, Desc: "the tokens held by a freshly loaded file differ from the tokens of its source", Input: string(src), Impl: string(h.f.BuildTokens(nil).Bytes())})
+				return false
+			}
+		}
+		// the unmodified tree must serialise to an equivalent configuration
 		out := h.f.Bytes()
 		nf2, d2 := hclsyntax.ParseConfig(out, "", hcl.InitialPos)
 		if d2.HasErrors() || lib.DumpBody(nf2.Body.(*hclsyntax.Body), false) != lib.DumpBody(nb, false) {
-			h.cx.Res.Count("skip:initial-unfaithful")
+			// the empty history is a history: the file as loaded must serialise to a valid, equivalent file
+			key, desc := "initial:ast-changed", "a file loaded and written back without any edit parses to a different configuration"
+			if d2.HasErrors() {
+				key, desc = "initial:unparseable", "a file loaded and written back without any edit does not parse: "+d2.Error()
+			}
+			if k, differ := lib.DiffKey(lib.LexSeq(src), lib.LexSeq(out)); differ {
+				key += ":tokens-changed:" + k
+			}
+			h.cx.Res.Fail(lib.Failure{Kind: "oracle", Key: key, Desc: desc, Input: string(src), Impl: string(out)})
 			return false
 		}
 		return true
